@@ -59,4 +59,9 @@ def jobs(tier):
                             ('append-ra', (1, 2)), ('slice2d-scalar', slice(None), slice(0, 1))):
                     add('vector_write_job', 'vector-write[%s,%s,%s]' % (list(lv), form, '-'.join(str(x) for x in op_[:3] if not isinstance(x, slice))),
                         lengths=lv, op=op_, form=form)
+    for lv in ((2, 1), (1, 3, 2), (2, 2)):
+        add('index_args_job', 'ndarray-index-arguments[%s,write]' % list(lv), lengths=lv, write=True)
+    for n_, L_ in ((2, 2), (3, 2), (2, 3)) if q else ((2, 2), (3, 2), (2, 3), (3, 3), (1, 2), (4, 2)):
+        for how in ('from-2d-ndarray', 'row-slice', 'full-slice', 'slice-of-operator-result'):
+            add('alias_job', 'aliasing[%s,%dx%d]' % (how, n_, L_), n=n_, L=L_, how=how)
     return J
